@@ -283,6 +283,10 @@ func c08B1(p *Prog, r *Report, t *TaintEngine) {
 			r.Violation("C08.B1-pool-escape", construct, p.Pos(fn.Pos()), "a value that may share memory with the pooled buffer outlives the function that returns the buffer to the pool: another stream that gets the same buffer overwrites it (or reads this caller's bytes)", v.bad...)
 		case len(v.unsure) > 0:
 			r.Undecide("%s: %s", construct, strings.Join(v.unsure, "; "))
+		case v.handsOver && len(t.Sum[fn].DynCalls) > 0:
+			// "never gives it back" is only known if every call of the function is followed
+			d := t.Sum[fn].DynCalls[0]
+			r.Undecide("%s: returns the pooled object and contains a %s (at %s): whether it also gives the buffer back is not decided", construct, d.What, p.Pos(d.Pos))
 		case v.handsOver:
 			r.OK("C08.B1-pool-escape", construct, p.Pos(fn.Pos()), "hands the pooled object over to its callers without giving it back (the callers are judged as holders); nothing else derived from it escapes")
 		default:
@@ -364,6 +368,128 @@ func c08OnceCallback(fn *ssa.Function) bool {
 	return found
 }
 
+// c08OnceIDOfCallback: fn is a function literal passed to (*sync.Once).Do; returns the identity of the Once.
+func c08OnceIDOfCallback(fn *ssa.Function) string {
+	par := fn.Parent()
+	if par == nil {
+		return ""
+	}
+	id := ""
+	allInstrs(par, func(in ssa.Instruction) {
+		ci, ok := in.(*ssa.Call)
+		if !ok || !callIs(ci, "sync", "Once", "Do") || len(ci.Call.Args) != 2 {
+			return
+		}
+		if mc, ok := ci.Call.Args[1].(*ssa.MakeClosure); ok && mc.Fn == ssa.Value(fn) {
+			if x, ok := lockIdent(ci.Call.Args[0]); ok {
+				id = x
+			}
+		} else if f, ok := ci.Call.Args[1].(*ssa.Function); ok && f == fn {
+			if x, ok := lockIdent(ci.Call.Args[0]); ok {
+				id = x
+			}
+		}
+	})
+	return id
+}
+
+// c08OnceSplit: if some access is a write inside a Once callback, returns the Once, the accesses inside
+// callbacks of that Once and the remaining ones; "" if not applicable (or several Onces are involved).
+func c08OnceSplit(accs []c08Acc) (string, []c08Acc, []c08Acc) {
+	id := ""
+	var cb, others []c08Acc
+	wrote := false
+	for _, a := range accs {
+		x := c08OnceIDOfCallback(a.fn)
+		if x == "" {
+			others = append(others, a)
+			continue
+		}
+		if id != "" && x != id {
+			return "", nil, nil
+		}
+		id = x
+		cb = append(cb, a)
+		if a.write {
+			wrote = true
+		}
+	}
+	if !wrote {
+		return "", nil, nil
+	}
+	return id, cb, others
+}
+
+// c08EnsuresOnce: every return of fn is preceded by Do on the Once (must-dataflow).
+func c08EnsuresOnce(fn *ssa.Function, onceID string) bool {
+	if len(fn.Blocks) == 0 {
+		return false
+	}
+	ff := &FlagFlow{Fn: fn, Must: true}
+	ff.Transfer = func(in ssa.Instruction, st uint64) uint64 {
+		if ci, ok := in.(*ssa.Call); ok && callIs(ci, "sync", "Once", "Do") {
+			if x, ok := lockIdent(ci.Call.Args[0]); ok && x == onceID {
+				return st | 1
+			}
+		}
+		return st
+	}
+	ff.Run()
+	all, n := true, 0
+	ff.AtReturns(func(ret *ssa.Return, st uint64) {
+		n++
+		if st&1 == 0 {
+			all = false
+		}
+	})
+	return all && n > 0
+}
+
+// c08AfterOnce: instruction in is dominated by a call of Do on the Once, or of a same-module function
+// that calls it on every path; or every call site of its (unexported, not address-taken) function is.
+func c08AfterOnce(p *Prog, in ssa.Instruction, onceID string, depth int) bool {
+	fn := in.Parent()
+	found := false
+	allInstrs(fn, func(d ssa.Instruction) {
+		ci, ok := d.(*ssa.Call)
+		if !ok || found || d == in || !instrDominates(d, in) {
+			return
+		}
+		if callIs(ci, "sync", "Once", "Do") {
+			if x, ok := lockIdent(ci.Call.Args[0]); ok && x == onceID {
+				found = true
+			}
+			return
+		}
+		if cal := staticCallee(ci); cal != nil && p.funcSet[cal] && c08EnsuresOnce(cal, onceID) {
+			found = true
+		}
+	})
+	if found || depth > 2 || isExportedFunc(fn) || fn.Parent() != nil {
+		return found
+	}
+	n := 0
+	ok := true
+	for _, g := range p.Funcs {
+		allInstrs(g, func(d ssa.Instruction) {
+			for _, op := range d.Operands(nil) {
+				if op != nil && *op == ssa.Value(fn) {
+					ci, isCall := d.(*ssa.Call)
+					if !isCall || ci.Call.Value != ssa.Value(fn) {
+						ok = false
+						return
+					}
+					n++
+					if !c08AfterOnce(p, d, onceID, depth+1) {
+						ok = false
+					}
+				}
+			}
+		})
+	}
+	return ok && n > 0
+}
+
 // c08PoolUses checks how the pool denoted by v (the global's address, or a
 // parameter that received it) is used inside fn. bad: positively not Get/Put;
 // unk: not followed.
@@ -418,6 +544,43 @@ func c08PoolUses(p *Prog, fn *ssa.Function, v ssa.Value, depth int, bad, unk *[]
 				}
 				*bad = append(*bad, "sync.Pool replaced (assigned) after initialisation "+where)
 				return
+			}
+			// kept in a local variable that is assigned once: the loads of that variable (also inside
+			// function literals that capture it) denote the same pool
+			if cell, ok := x.Addr.(*ssa.Alloc); ok && depth < 4 {
+				followed := true
+				var loads []ssa.Value
+				var collect func(addr ssa.Value, owner *ssa.Function)
+				collect = func(addr ssa.Value, owner *ssa.Function) {
+					for _, rr := range refs(addr) {
+						switch y := rr.(type) {
+						case *ssa.UnOp:
+							if throughSingleStoreCells(y, 0) == v {
+								loads = append(loads, y)
+							} else {
+								followed = false
+							}
+						case *ssa.Store, *ssa.DebugRef:
+						case *ssa.MakeClosure:
+							if f, ok := y.Fn.(*ssa.Function); ok {
+								for i, b := range y.Bindings {
+									if b == addr && i < len(f.FreeVars) {
+										collect(f.FreeVars[i], f)
+									}
+								}
+							}
+						default:
+							followed = false
+						}
+					}
+				}
+				collect(cell, fn)
+				if followed {
+					for _, ld := range loads {
+						c08PoolUses(p, ld.(*ssa.UnOp).Parent(), ld, depth+1, bad, unk)
+					}
+					return
+				}
 			}
 			*unk = append(*unk, "address of the sync.Pool stored "+where)
 		case *ssa.UnOp:
@@ -604,18 +767,9 @@ func c08B2(p *Prog, r *Report, t *TaintEngine, e *LockEngine) []GuardSpec {
 					if s.Instr == nil {
 						continue
 					}
-					if !s.Local {
-						// inherited through a call: if the callee itself reaches the variable it is judged there
-						var cal *ssa.Function
-						switch x := s.Instr.(type) {
-						case ssa.CallInstruction:
-							cal = staticCallee(x)
-						case *ssa.MakeClosure:
-							cal, _ = x.Fn.(*ssa.Function)
-						}
-						if cal != nil && t.Sum[origin(cal)] != nil && len(t.Sum[origin(cal)].Writes["global:"+gid]) > 0 {
-							continue
-						}
+					if !s.Local && !s.Mapped {
+						// the callee (whichever function value it is) reaches the variable by itself: judged there
+						continue
 					}
 					add(c08Acc{in: s.Instr, fn: fn, write: true, what: s.What})
 				}
@@ -641,6 +795,31 @@ func c08B2(p *Prog, r *Report, t *TaintEngine, e *LockEngine) []GuardSpec {
 				r.OK("C08.B2-inventory", construct, p.Pos(g.Pos()), "never written (or written through) outside package initialisation"+fmsg)
 				continue
 			}
+			// lazily initialised under a sync.Once: the callback's accesses are ordered before everything that
+			// happens after Do returns; every other access must be preceded by Do on the same Once
+			if onceID, cbAccs, others := c08OnceSplit(accs); onceID != "" {
+				var late []string
+				for _, a := range others {
+					if !c08AfterOnce(p, a.in, onceID, 0) {
+						late = append(late, desc(a))
+					}
+				}
+				if len(late) > 0 {
+					sort.Strings(late)
+					r.Undecide("%s is initialised inside a sync.Once callback (%d accesses there); these accesses are not provably preceded by Do on %s: %s", construct, len(cbAccs), shortID(onceID), strings.Join(late, "; "))
+					continue
+				}
+				accs, writes = others, nil
+				for _, a := range accs {
+					if a.write {
+						writes = append(writes, a)
+					}
+				}
+				if len(writes) == 0 {
+					r.OK("C08.B2-inventory", construct, p.Pos(g.Pos()), "initialised once inside a sync.Once callback ("+shortID(onceID)+"); every other access happens after Do returned and none of them writes")
+					continue
+				}
+			}
 			// mutated after initialisation: some package-level lock must be held at every access
 			best, bestLock := []string(nil), ""
 			for _, lock := range locks {
@@ -657,7 +836,7 @@ func c08B2(p *Prog, r *Report, t *TaintEngine, e *LockEngine) []GuardSpec {
 					if !e.Reachable(a.in) {
 						continue
 					}
-					if held := e.At(a.in)[lock]; held < need {
+					if held := c08LockCtxOf(p, e).held(a.in, lock); held < need {
 						bad = append(bad, fmt.Sprintf("%s needs %s(%s), holds %s", desc(a), shortID(lock), need, held))
 					}
 				}
@@ -795,7 +974,7 @@ func c08SingletonFields(p *Prog, e *LockEngine, g *ssa.Global, elem types.Type, 
 				if a.Kind == AccWrite {
 					need = ModeW
 				}
-				if held := e.At(a.Instr)[lock]; held < need {
+				if held := c08LockCtxOf(p, e).held(a.Instr, lock); held < need {
 					b = append(b, fmt.Sprintf("field %s: %s (%s) at %s in %s needs %s(%s), holds %s", f.Name(), a.Kind, a.What, p.Pos(instrPos(a.Instr)), FuncName(p, a.Fn), shortID(lock), need, held))
 				}
 			}
@@ -823,6 +1002,330 @@ func c08SingletonFields(p *Prog, e *LockEngine, g *ssa.Global, elem types.Type, 
 		msg = "; the only object of its type: fields mutated after initialisation are guarded (" + strings.Join(guarded, ", ") + ")"
 	}
 	return bad, specs, msg
+}
+
+// ---------------------------------------------------------------- lock context of callbacks
+//
+// The lockset engine knows the locks a function takes itself and the locks
+// its static callers hold. c08LockCtx adds the locks held around the
+// INVOCATION of a function value: a function literal (or named function) whose
+// every use is to be passed to a same-module wrapper `locked(l, fn)` that calls
+// it while holding a lock — a fixed one, or one it received as a parameter
+// (*sync.Mutex, *sync.RWMutex, sync.Locker; `&mu`, `mu.RLocker()` at the call
+// site) — runs under that lock. Static callees of such callbacks inherit it.
+
+type c08LockCtx struct {
+	p      *Prog
+	e      *LockEngine
+	uses   map[*ssa.Function][]ssa.Instruction // non-call-position uses of a function value
+	sites  map[*ssa.Function][]ssa.CallInstruction
+	extra  map[*ssa.Function]LS
+	inprog map[*ssa.Function]bool
+	pflow  map[*ssa.Function]*FlagFlow
+}
+
+var c08LockCtxCache = map[*LockEngine]*c08LockCtx{}
+
+func c08LockCtxOf(p *Prog, e *LockEngine) *c08LockCtx {
+	if c, ok := c08LockCtxCache[e]; ok {
+		return c
+	}
+	c := &c08LockCtx{p: p, e: e, uses: map[*ssa.Function][]ssa.Instruction{}, sites: map[*ssa.Function][]ssa.CallInstruction{}, extra: map[*ssa.Function]LS{}, inprog: map[*ssa.Function]bool{}, pflow: map[*ssa.Function]*FlagFlow{}}
+	for _, fn := range p.Funcs {
+		allInstrs(fn, func(in ssa.Instruction) {
+			ci, isCall := in.(ssa.CallInstruction)
+			if isCall {
+				if cal := staticCallee(ci); cal != nil && p.funcSet[cal] {
+					c.sites[cal] = append(c.sites[cal], ci)
+				}
+			}
+			for _, op := range in.Operands(nil) {
+				if op == nil || *op == nil {
+					continue
+				}
+				f, ok := (*op).(*ssa.Function)
+				if !ok {
+					continue
+				}
+				if isCall && ci.Common().Value == *op && !ci.Common().IsInvoke() {
+					continue
+				}
+				c.uses[origin(f)] = append(c.uses[origin(f)], in)
+			}
+		})
+	}
+	c08LockCtxCache[e] = c
+	return c
+}
+
+func (c *c08LockCtx) held(in ssa.Instruction, lock string) Mode {
+	m := c.e.At(in)[lock]
+	if fn := in.Parent(); fn != nil {
+		if x := c.entryExtra(fn)[lock]; x > m {
+			m = x
+		}
+	}
+	return m
+}
+
+func (c *c08LockCtx) heldAll(in ssa.Instruction) LS {
+	out := c.e.At(in).clone()
+	if fn := in.Parent(); fn != nil {
+		for id, m := range c.entryExtra(fn) {
+			if m > out[id] {
+				out[id] = m
+			}
+		}
+	}
+	return out
+}
+
+// entryExtra: locks held whenever fn runs that the lockset engine does not see.
+func (c *c08LockCtx) entryExtra(fn *ssa.Function) LS {
+	fn = origin(fn)
+	if ls, ok := c.extra[fn]; ok {
+		return ls
+	}
+	if c.inprog[fn] {
+		return LS{}
+	}
+	c.inprog[fn] = true
+	defer delete(c.inprog, fn)
+	var acc LS
+	meet := func(ls LS) {
+		if acc == nil {
+			acc = ls.clone()
+		} else {
+			acc = meetLS(acc, ls)
+		}
+	}
+	if isExportedFunc(fn) || c08IsInitFunc(fn) {
+		meet(LS{})
+	}
+	// direct calls
+	for _, cs := range c.sites[fn] {
+		if _, isCall := cs.(*ssa.Call); isCall {
+			meet(c.heldAll(cs))
+		} else if d, isDefer := cs.(*ssa.Defer); isDefer {
+			_ = d
+			meet(LS{}) // runs at function exit: what is held then is not tracked here
+		} else {
+			meet(LS{})
+		}
+	}
+	// uses as a value
+	for _, u := range c.uses[fn] {
+		switch x := u.(type) {
+		case *ssa.MakeClosure:
+			rs := refs(x)
+			if len(rs) == 0 {
+				meet(LS{})
+			}
+			for _, r := range rs {
+				if _, isDbg := r.(*ssa.DebugRef); isDbg {
+					continue
+				}
+				meet(c.valueUseCtx(x, r))
+			}
+		default:
+			meet(c.valueUseCtx(nil, u))
+		}
+	}
+	if acc == nil {
+		acc = LS{}
+	}
+	// locks fn may release itself are not counted
+	if _, rel := c.e.Summary(fn); rel != nil {
+		for id := range rel {
+			delete(acc, id)
+		}
+	}
+	c.extra[fn] = acc
+	return acc
+}
+
+// valueUseCtx: the function value v (nil: a bare *ssa.Function operand) is used by instruction u.
+func (c *c08LockCtx) valueUseCtx(v ssa.Value, u ssa.Instruction) LS {
+	ci, ok := u.(*ssa.Call)
+	if !ok {
+		return LS{}
+	}
+	cc := ci.Common()
+	if v != nil && cc.Value == v {
+		return c.heldAll(ci) // called right where it is created
+	}
+	w := staticCallee(ci)
+	if w == nil || !c.p.funcSet[w] || cc.IsInvoke() {
+		return LS{}
+	}
+	var acc LS
+	found := false
+	for k, a := range cc.Args {
+		isArg := false
+		if v != nil {
+			isArg = a == v
+		} else if f, ok := a.(*ssa.Function); ok {
+			for _, uu := range c.uses[origin(f)] {
+				if uu == u {
+					isArg = true
+				}
+			}
+		}
+		if !isArg || k >= len(w.Params) {
+			continue
+		}
+		found = true
+		ls := c.wrapperCtx(w, k, ci)
+		for id, m := range c.heldAll(ci) {
+			if m > ls[id] {
+				ls[id] = m
+			}
+		}
+		if acc == nil {
+			acc = ls
+		} else {
+			acc = meetLS(acc, ls)
+		}
+	}
+	if !found || acc == nil {
+		return LS{}
+	}
+	return acc
+}
+
+func c08LockParamKind(t types.Type) bool {
+	k := namedKey(t)
+	return k == "sync.Mutex" || k == "sync.RWMutex" || k == "sync.Locker"
+}
+
+// paramLockFlow: must-dataflow over w: bit 2j = parameter j is locked (Lock), bit 2j+1 = read-locked (RLock).
+func (c *c08LockCtx) paramLockFlow(w *ssa.Function) *FlagFlow {
+	if ff, ok := c.pflow[w]; ok {
+		return ff
+	}
+	idx := map[ssa.Value]int{}
+	for j, pa := range w.Params {
+		if j < 30 && c08LockParamKind(pa.Type()) {
+			idx[pa] = j
+		}
+	}
+	ff := &FlagFlow{Fn: w, Must: true}
+	ff.Transfer = func(in ssa.Instruction, st uint64) uint64 {
+		if _, isDefer := in.(*ssa.Defer); isDefer && !ff.Replaying {
+			return st
+		}
+		ci, ok := in.(ssa.CallInstruction)
+		if !ok {
+			return st
+		}
+		cc := ci.Common()
+		var recv ssa.Value
+		name := ""
+		if cc.IsInvoke() {
+			recv, name = cc.Value, cc.Method.Name()
+		} else if obj := calleeObj(ci); obj != nil && obj.Pkg() != nil && obj.Pkg().Path() == "sync" && len(cc.Args) > 0 {
+			recv, name = cc.Args[0], obj.Name()
+		}
+		j, isParam := idx[recv]
+		if !isParam {
+			return st
+		}
+		switch name {
+		case "Lock":
+			return st | 1<<(2*uint(j))
+		case "RLock":
+			return st | 1<<(2*uint(j)+1)
+		case "Unlock", "RUnlock":
+			return st &^ (3 << (2 * uint(j)))
+		}
+		return st
+	}
+	if len(idx) > 0 {
+		ff.Run()
+	}
+	c.pflow[w] = ff
+	return ff
+}
+
+// resolveLockArg: the lock a call-site argument denotes, and the mode Lock() on it gives.
+func c08ResolveLockArg(v ssa.Value) (id string, lockMode Mode, ok bool) {
+	for {
+		switch x := v.(type) {
+		case *ssa.MakeInterface:
+			v = x.X
+			continue
+		case *ssa.ChangeInterface:
+			v = x.X
+			continue
+		case *ssa.ChangeType:
+			v = x.X
+			continue
+		case *ssa.Call:
+			if callIs(x, "sync", "RWMutex", "RLocker") && len(x.Call.Args) == 1 {
+				if id, ok := lockIdent(x.Call.Args[0]); ok {
+					return id, ModeR, true
+				}
+			}
+			return "", 0, false
+		}
+		break
+	}
+	if k := namedKey(v.Type()); k != "sync.Mutex" && k != "sync.RWMutex" {
+		return "", 0, false
+	}
+	if id, ok := lockIdent(v); ok {
+		return id, ModeW, true
+	}
+	return "", 0, false
+}
+
+// wrapperCtx: the locks w holds at every invocation of its function-typed parameter k, for the call site cs of w.
+func (c *c08LockCtx) wrapperCtx(w *ssa.Function, k int, cs *ssa.Call) LS {
+	w = origin(w)
+	pa := w.Params[k]
+	var acc LS
+	for _, r := range refs(pa) {
+		if _, isDbg := r.(*ssa.DebugRef); isDbg {
+			continue
+		}
+		inv, ok := r.(*ssa.Call)
+		if !ok || inv.Call.Value != ssa.Value(pa) {
+			return LS{} // passed on, stored, started as a goroutine, deferred: not followed
+		}
+		ls := c.heldAll(inv)
+		ff := c.paramLockFlow(w)
+		if st, reach := ff.Before(inv); reach && st != 0 {
+			for j := range w.Params {
+				if j >= 30 || j >= len(cs.Call.Args) {
+					break
+				}
+				bits := (st >> (2 * uint(j))) & 3
+				if bits == 0 {
+					continue
+				}
+				id, lockMode, ok := c08ResolveLockArg(cs.Call.Args[j])
+				if !ok {
+					continue
+				}
+				m := ModeR
+				if bits&1 != 0 {
+					m = lockMode
+				}
+				if m > ls[id] {
+					ls[id] = m
+				}
+			}
+		}
+		if acc == nil {
+			acc = ls
+		} else {
+			acc = meetLS(acc, ls)
+		}
+	}
+	if acc == nil {
+		return LS{}
+	}
+	return acc
 }
 
 // ---------------------------------------------------------------- B3
@@ -1082,8 +1585,9 @@ func c08ZeroEdges(fn *ssa.Function, vw *c08View) (edges map[[2]*ssa.BasicBlock]b
 	edges = map[[2]*ssa.BasicBlock]bool{}
 	accounted = map[*ssa.Store]bool{}
 	lenOfFull := func(v ssa.Value) bool {
+		// cap(view) bounds len(view) from above: a loop running to the capacity covers the length
 		c, ok := v.(*ssa.Call)
-		return ok && builtinName(c) == "len" && vw.full[c.Call.Args[0]]
+		return ok && (builtinName(c) == "len" || builtinName(c) == "cap") && vw.full[c.Call.Args[0]]
 	}
 	lenMinus1 := func(v ssa.Value) bool {
 		b, ok := v.(*ssa.BinOp)
@@ -1494,6 +1998,15 @@ func (z *c08Zero) cleanResults(fn *ssa.Function) *c08ZeroVerdict {
 				}
 			}
 			return true
+		case *ssa.Extract:
+			if c, ok := y.Tuple.(*ssa.Call); ok {
+				if cleanCalls[c] {
+					return true
+				}
+				if cal := staticCallee(c); cal != nil && p.funcSet[cal] && depth < 4 {
+					return z.cleanResults(cal).status == c08Clean
+				}
+			}
 		case *ssa.Call:
 			if cleanCalls[y] {
 				return true
